@@ -362,6 +362,8 @@ def witnesses():
                            [["var", "y"]], [X, Y]),
         "forall-empty-range": _w(["forall", "y", ["cmp", "!=", ["attr", ["var", "x"], "a"], ["attr", ["var", "y"], "a"]]],
                                  [["var", "x"]], [X, Y0]),
+        "forall-replays-first-predicate-result": _w(["forall", "x", ["pred", "BothPositive", [["var", "x"], ["var", "y"]]]],
+                                                    [["var", "y"]], [dict(X, dom=[1, 0]), Y]),
         "predicate-same-var-twice": _w(["cmp", ">", ["fn", "sum_ab", {"x": ["var", "x"], "y": ["var", "x"]}], ["lit", 2]],
                                        [["var", "x"]], [dict(X, dom=[0, 1, 2])]),
         "falsy-operand-dropped": _w(
